@@ -267,6 +267,9 @@ func genStorage(r *sim.RNG, p *sim.Plan, tier string, prof *profile) {
 		set = append(set, "validator_reward", []string{"0", "0.3", "1"}[sw.Intn(3)])
 	}
 	boot = append(boot, sim.Step{Op: "st.settings", S: set})
+	if age := []int{0, 30, 31, 45}[sw.Pick([]int{2, 3, 3, 1})]; age > 0 {
+		boot = append(boot, sim.Step{Op: "st.rounds", I: []int64{int64(age)}})
+	}
 	if p.Cfg["fees"] != 0 {
 		for i := 0; i < nb; i++ {
 			boot = append(boot, sim.Step{Op: "st.fund", A: i % nc, I: []int64{0, int64(i), 1}})
